@@ -721,11 +721,14 @@ fn main() {
 						outs.push(sys.enc_event(ev));
 					}
 				}
+				// the pending events (kind, payment id), oldest first: for the judge only
+				let queue: Vec<Vec<i64>> = evs.iter().map(|(ev, _)| sys.enc_event(ev)[..2].to_vec()).collect();
 				writeln!(
 					out,
-					"{{\"outs\":{},\"state\":{},\"panic\":false}}",
+					"{{\"outs\":{},\"state\":{},\"queue\":{},\"panic\":false}}",
 					json_rows(&outs),
-					json_rows(&sys.enc_state())
+					json_rows(&sys.enc_state()),
+					json_rows(&queue)
 				)
 				.unwrap();
 			},
